@@ -396,13 +396,13 @@ Proof.
     + inversion Hrun; subst. exists O. split; [cbn; lia|]. cbn [firstn]. rewrite app_nil_r. exact Hstep.
 Qed.
 
-Lemma st_create_table_err_rep s d n fds s' e :
+Lemma st_create_table0_err_rep s d n fds s' e :
   Rep s d -> NoDup (names fds) -> nextFree s' <= OFFMAX ->
-  st_create_table s n fds = (s', Err e) ->
+  st_create_table0 s n fds = (s', Err e) ->
   Rep s' d \/ (find_tbl n d = None /\ exists i, (i < List.length fds)%nat /\ Rep s' (d ++ [mkTbl n (firstn i fds) []])).
 Proof.
   intros HR Hnd Hmax Hrun. pose proof HR as [Hinv Hok (pt & sc & ents & osc & HC)].
-  unfold st_create_table in Hrun.
+  unfold st_create_table0 in Hrun.
   destruct (is_sys n) eqn:Hsys.
   { left. destruct (rel_offset_sys s d n HR Hsys) as [o Eo]. rewrite Eo in Hrun. inversion Hrun; subst. exact HR. }
   destruct (find_tbl n d) as [t|] eqn:Hf.
@@ -429,6 +429,29 @@ Proof.
   exact (insert_schema_rows_err_rep n fds s2 d [] osc2 s' e HR2 Eosc Hnd Hmax Hrun).
 Qed.
 
+Lemma st_create_table_err_rep s d n fds s' e :
+  Rep s d -> nextFree s' <= OFFMAX ->
+  st_create_table s n fds = (s', Err e) ->
+  Rep s' d \/ (names_distinct (names fds) = true /\ find_tbl n d = None /\
+               exists i, (i < List.length fds)%nat /\ Rep s' (d ++ [mkTbl n (firstn i fds) []])).
+Proof.
+  intros HR Hmax Hrun. unfold st_create_table in Hrun. fold (names fds) in Hrun.
+  destruct (names_distinct (names fds)) eqn:Hd; [|inversion Hrun; subst; left; exact HR].
+  destruct (st_create_table0_err_rep s d n fds s' e HR (names_distinct_NoDup _ Hd) Hmax Hrun) as [H|(Hf & H)];
+    [left; exact H | right; auto].
+Qed.
+
+Lemma names_distinct_firstn i : forall l, names_distinct l = true -> names_distinct (firstn i l) = true.
+Proof.
+  induction i as [|i IH]; intros l H; [reflexivity|]. destruct l as [|a r]; [reflexivity|].
+  cbn [firstn names_distinct] in *. apply andb_true_iff in H as [A B]. apply andb_true_iff. split; [|apply IH; exact B].
+  apply negb_true_iff. apply negb_true_iff in A. destruct (existsb (String.eqb a) (firstn i r)) eqn:E; [|reflexivity].
+  apply existsb_exists in E as (x & Hin & Hx).
+  assert (Hin' : In x r) by (rewrite <- (firstn_skipn i r); apply in_or_app; left; exact Hin).
+  clear Hin. rename Hin' into Hin.
+  assert (X : existsb (String.eqb a) r = true) by (apply existsb_exists; eauto). congruence.
+Qed.
+
 Lemma filter_length_le {A} (p : A -> bool) l : (List.length (filter p l) <= List.length l)%nat.
 Proof. induction l as [|a l IH]; cbn [filter List.length]; [lia|]. destruct (p a); cbn [List.length]; lia. Qed.
 
@@ -441,14 +464,16 @@ Proof.
   intros HR Hst Hmax Hout.
   destruct st as [q|n cds|n| |n|n cols rows|n sets w|n w]; try (cbn [run_stmt e_store]; exists d; split; [left; reflexivity | exact HR]).
   - (* CREATE TABLE *)
-    cbn [stmt_ok] in Hst. apply nodupb_NoDup in Hst. rename Hst into Hnd. cbn [run_stmt] in *.
+    clear Hst. cbn [run_stmt] in *.
     destruct (st_create_table s n (map fielddef_of cds)) as [s1 [[]|e1|]] eqn:Ec; cbn [e_store e_out] in *; try discriminate.
-    destruct (st_create_table_err_rep s d n (map fielddef_of cds) s1 e1 HR ltac:(rewrite names_fielddefs; exact Hnd) Hmax Ec)
-      as [HR1|(Hf & i & Hi & HR1)].
+    destruct (st_create_table_err_rep s d n (map fielddef_of cds) s1 e1 HR Hmax Ec)
+      as [HR1|(Hnd & Hf & i & Hi & HR1)].
     + exists d. split; [left; reflexivity | exact HR1].
     + eexists. split; [|exact HR1]. right. cbn [stmt_prefixes]. right.
       apply in_flat_map. exists i. rewrite map_length in Hi. split; [apply in_seq; lia|].
-      cbn [spec_exec]. rewrite Hf. cbn [ok_dbs]. left. rewrite <- fielddef_spec, firstn_map. reflexivity.
+      rewrite names_fielddefs in Hnd.
+      cbn [spec_exec]. rewrite <- firstn_map, (names_distinct_firstn i _ Hnd). cbn [negb].
+      rewrite Hf. cbn [ok_dbs]. left. rewrite <- fielddef_spec, firstn_map. reflexivity.
   - (* INSERT *)
     cbn [stmt_ok] in Hst. rename Hst into Hv.
     assert (Hvals : Forall (Forall val_okP) rows).
